@@ -13,7 +13,7 @@ TECHNIQUE = ("bounded-exhaustive enumeration of operator-instance sequences buil
              "x min_pattern_len x top_k, real get_frequent_cuda_kernel_sequences vs recount from the reference tree")
 RULE = ("every sequence of <=L top-level instances drawn (with repetition) from 12 templates over operator names "
         "{aten::A, aten::B} and activities {kern_x, kern_y, memcpy}; evaluated for operator in {aten::A, aten::B, "
-        "absent name} x min_pattern_len in {0,1,2,3} x top_k in {1,5}; length-2 sequences also with the file order reversed; a variant wraps everything in profiler-step "
+        "absent name} x min_pattern_len in {0,1,2,3} x top_k in {1,5}; length-2 sequences also with the file order reversed and in a session slice (the same object ran a critical-path analysis | decode_symbol_ids | the other summary getters before); a variant wraps everything in profiler-step "
         "annotations, another analyses it as rank 1 of a two-rank job. non-trivial = at least two patterns, or an instance excluded by depth or by min_pattern_len")
 ASSUMPTIONS = [
     "operator names of the alphabet are not substrings of one another or of activity names, so 'matching' is exact",
@@ -63,6 +63,11 @@ def worlds(tier: str, stats: Dict[str, Any]) -> Iterator[Any]:
             if L == 2:
                 stats["transitions"] += 1
                 yield dict(seq=list(seq), steps=False, file_order="reversed")
+                if seq[0] != seq[1]:
+                    # session slice: the same object was used for other analyses before
+                    pk = ("cp", "decode", "getters")[(seq[0] + seq[1]) % 3]
+                    stats["transitions"] += 1
+                    yield dict(seq=list(seq), steps=False, prior=pk)
     if b["L"] < 3:
         for seq in itertools.product(b["L3_subset"], repeat=3):
             stats["transitions"] += 1
@@ -141,6 +146,8 @@ def check(world) -> Dict[str, Any]:
         ta, d = htaenv.load_world({0: build(dict(seq=[3, 9], steps=False)), 1: evs}, keep=True)
     else:
         ta, d = htaenv.load_world({0: evs}, keep=True)
+        if world.get("prior"):
+            htaenv.prior_session(ta, world["prior"])
     out_dir = os.path.join(d, "out")
     os.makedirs(out_dir)
     execs = 0
